@@ -7,6 +7,11 @@ CONSTANTS
   SiblingsAt <- MCSiblingsAt
   Stmts <- MCStmts
   SubSecond = TRUE
+  Modes = {"tree", "stmt"}
+  Texts = {}
+  Calls = {}
+  Lexers = {}
+  EarlyRelease = FALSE
   MCMaxDepth = 0
 SPECIFICATION Spec
 INVARIANTS StmtRoundTrip
